@@ -64,6 +64,8 @@ SEED_STATES = [
     ['a/', 'a/a/', 'a/a/b', 'a/b -> a'],             # a directory link one real level below the root
     ['a/', 'a/b/', 'a/b/a', 'b/', 'b/b -> ../a'],      # link into another subtree, no cycle
     ['a/', 'a/a -> .', 'a/b'],                       # link named like its parent
+    ['b/', 'b/a/', 'b/a/b -> ../../a', 'a/', 'a/a'],   # directory link two real levels down: with `**/a/**` the first
+    ['a/', 'a/a/', 'a/a/b -> ../../b', 'b/', 'b/a'],   # `**` is forced to be non-empty and the second starts below a literal
 ]
 
 
